@@ -273,6 +273,10 @@ func ruleTokenWrite(c *chk.Ctx, owner string) {
 				if prm, ok := s.resp.(*ssa.Parameter); ok {
 					respOK, why = paramTiedToKey(c, f, prm, p.key)
 				}
+				// the Response and the key are the two halves of one "pending call" record
+				if !respOK && idOfResponse(c, p.key, s.resp, 0) {
+					respOK = true
+				}
 				// comma-ok lookup: the written Response is the value half of that very lookup
 				if e, ok := ir.NormCell(s.resp).(*ssa.Extract); ok && e.Index == 0 && isSameInstr(e.Tuple, p.lookup) {
 					respOK = true
@@ -611,6 +615,9 @@ func ruleTokenRegister(c *chk.Ctx, owner string) {
 					}
 				}
 			}
+			if !keyOK && idOfResponse(c, mu.Key, mu.Value, 0) {
+				keyOK = true
+			}
 			if !keyOK {
 				c.Fail("TOKEN.register", f, owner+" registration", mu.Pos(), "the table key is not the registered Response's id")
 				return
@@ -625,6 +632,17 @@ func ruleTokenRegister(c *chk.Ctx, owner string) {
 				for _, a := range g.Call.Args {
 					if ir.SameValue(a, resp) {
 						watcher = g
+					}
+					// the Response handed over inside a record (a "pending call" struct)
+					if rb, _, isProj := projection(resp); isProj {
+						if rb == ir.NormCell(a) || ir.SameValue(rb, a) {
+							watcher = g
+						}
+						// the record kept in a local variable: the argument is a load of the whole
+						// variable, the Response a load of one of its fields
+						if u, isU := a.(*ssa.UnOp); isU && u.Op == token.MUL && u.X == rb {
+							watcher = g
+						}
 					}
 				}
 			})
@@ -1330,4 +1348,87 @@ func sameFieldLoad(a, b ssa.Value) bool {
 	fa, ok1 := ua.X.(*ssa.FieldAddr)
 	fb, ok2 := ub.X.(*ssa.FieldAddr)
 	return ok1 && ok2 && fa.Field == fb.Field && ir.NormCell(fa.X) == ir.NormCell(fb.X)
+}
+
+// idOfResponse: k is the id under which the Response r was created: r.id read
+// back, the value stored into a fresh Response's id field, or — when both are
+// fields of one struct value (a "pending call" record) — the two fields are
+// always written together from values that are so related. Parameters are
+// followed to the arguments of every call site.
+func idOfResponse(c *chk.Ctx, k, r ssa.Value, depth int) bool {
+	if depth > 4 {
+		return false
+	}
+	k, r = ir.NormCell(k), ir.NormCell(r)
+	if ct, ok := k.(*ssa.ChangeType); ok {
+		k = ir.NormCell(ct.X)
+	}
+	// k == r.id
+	if u, ok := k.(*ssa.UnOp); ok && u.Op == token.MUL {
+		if fa, ok := u.X.(*ssa.FieldAddr); ok && ir.FieldVar(fa) == c.M.RID && (fa.X == r || ir.SameValue(fa.X, r)) {
+			return true
+		}
+	}
+	// r is a fresh Response whose id field was stored with k
+	if al, ok := r.(*ssa.Alloc); ok {
+		for _, ref := range *al.Referrers() {
+			if fa, ok := ref.(*ssa.FieldAddr); ok && ir.FieldVar(fa) == c.M.RID {
+				for _, r2 := range *fa.Referrers() {
+					if st, ok := r2.(*ssa.Store); ok && (ir.NormCell(st.Val) == k || ir.SameValue(st.Val, k)) {
+						return true
+					}
+				}
+			}
+		}
+	}
+	// two fields of one record, always written together from related values
+	kb, kf, ok1 := projection(k)
+	rb, rf, ok2 := projection(r)
+	if ok1 && ok2 && kf != rf && (kb == rb || ir.SameValue(kb, rb)) {
+		ks, rs := c.P.FieldStores(kf), c.P.FieldStores(rf)
+		if len(ks) > 0 && len(ks) == len(rs) {
+			all := true
+			for _, st := range ks {
+				var mate *ssa.Store
+				for _, x := range rs {
+					if x.Block() == st.Block() && x.Addr.(*ssa.FieldAddr).X == st.Addr.(*ssa.FieldAddr).X {
+						mate = x
+					}
+				}
+				if mate == nil || !idOfResponse(c, st.Val, mate.Val, depth+1) {
+					all = false
+				}
+			}
+			if all {
+				return true
+			}
+		}
+	}
+	// both handed down from the caller
+	if kp, ok := k.(*ssa.Parameter); ok {
+		if rp, ok := r.(*ssa.Parameter); ok && kp.Parent() == rp.Parent() {
+			f := kp.Parent()
+			ki, ri := -1, -1
+			for i, p := range f.Params {
+				if p == kp {
+					ki = i
+				}
+				if p == rp {
+					ri = i
+				}
+			}
+			sites := c.P.Callers(f)
+			if ki >= 0 && ri >= 0 && len(sites) > 0 && !c.P.UsedAsValue(f) {
+				all := true
+				for _, s := range sites {
+					args := s.Instr.Common().Args
+					if ki >= len(args) || ri >= len(args) || !idOfResponse(c, args[ki], args[ri], depth+1) {
+						all = false
+					}
+				}
+				return all
+			}
+		}
+	}
+	return false
 }
